@@ -34,8 +34,9 @@ L = {
          '(|r - (a op b)| <= 1/2 ulp(r) for + - * /, all operands), comparisons_are_rational_order, quotient_identity. Correspondence vs CPython decimal; Fraction oracle monitor.',
          'pow / round / quantize against Q pending.'),
  'C09': ('Theorems: one-transition lemmas plus big-step theorems over sub-evaluations of any length (strict_bin_big_step, and/or/if-else laziness, '
-         'args_big_step, dict_big_step, operand_then_frame) via the frame lemma. Correspondence: probe-log slice; monitors: probe order / count, value of and/or chains.',
-         'three-part slice node and HOF callbacks: one-transition lemmas only.'),
+         'args_big_step, dict_big_step, slice_big_step, hof_big_step for the callbacks of map / filter / reduce / sorted, operand_then_frame) via the frame lemma. '
+         'Correspondence: probe-log slice; monitors: probe order / count, value of and/or chains.',
+         'raising callbacks inside a higher-order call: one-transition lemmas only.'),
  'C10': ('Theorems: lookup order, writes go to the top scope, scope_balanced / scopes_restored / host_scope_beneath over all runs, eval_ends_with_host_scope_only. '
          'Correspondence: scope and session-scope slices; monitors: scope leaks, zero-argument ast lambdas, re-entrant eval, mappings with __missing__.',
          'heap-level separation of scope dictionaries from values pending.'),
